@@ -197,6 +197,9 @@ open Lean Elab Command in
             env["RUSTFLAGS"] = rustflags
         if not (HARNESS / "Cargo.lock").exists():
             shutil.copy(REPO / "Cargo.lock", HARNESS / "Cargo.lock")
+        toml = (HARNESS / "Cargo.toml.in").read_text().replace("@REPO@", str(REPO))
+        if not (HARNESS / "Cargo.toml").exists() or (HARNESS / "Cargo.toml").read_text() != toml:
+            (HARNESS / "Cargo.toml").write_text(toml)
         t = time.time()
         r = subprocess.run(cmd, cwd=HARNESS, capture_output=True, text=True, env=env)
         self.say(f"[cargo] {profile} features='{features}' rc={r.returncode} ({time.time() - t:.1f}s)")
